@@ -319,6 +319,40 @@ func extractC12() *lean {
 			return true
 		})
 	}
+	// the counter compared with *Max counts members TAKEN: the range key is not used, the counter is a separate variable that
+	// is incremented exactly in the branch that takes a member
+	countsTaken := false
+	if fd := funcDecl(srf, "apply"); fd != nil {
+		ast.Inspect(fd, func(n ast.Node) bool {
+			rs, ok := n.(*ast.RangeStmt)
+			if !ok || len(rs.Body.List) != 2 {
+				return true
+			}
+			test, ok := rs.Body.List[0].(*ast.IfStmt)
+			if !ok || !strings.Contains(exprString(test.Cond), "== *submissionRequirement.Max") {
+				return true
+			}
+			counter := ""
+			for _, c := range c12Conjuncts(test.Cond) {
+				if be, ok := c.(*ast.BinaryExpr); ok && be.Op == token.EQL && exprString(be.Y) == "*submissionRequirement.Max" {
+					counter = exprString(be.X)
+				}
+			}
+			keyUnused := rs.Key == nil || exprString(rs.Key) == "_"
+			take, ok := rs.Body.List[1].(*ast.IfStmt)
+			incInTake := false
+			if ok && exprString(take.Cond) == "!member.empty()" {
+				for _, st := range take.Body.List {
+					if inc, ok := st.(*ast.IncDecStmt); ok && inc.Tok == token.INC && exprString(inc.X) == counter {
+						incInTake = true
+					}
+				}
+			}
+			countsTaken = counter != "" && keyUnused && incInTake
+			return true
+		})
+	}
+	l.def("applyMaxCountsTakenMembers", "Bool", fmt.Sprint(countsTaken), countsTaken)
 	l.def("applyMaxTestBeforeTake", "Bool", maxFirst, maxFirst)
 	l.def("applyRejectsMinAboveMax", "Bool", minMax, minMax)
 	// ---- matchFilter: is a MatchTimeout assigned to the compiled pattern before it is run, and is it a finite constant?
